@@ -413,3 +413,63 @@ def keyword_aliases_do_not_touch_names(K, source, want):
     equation for k_y, not a keyword)."""
     got = K.call(PM._replace_underscores_by_hyphens, source)
     K.ensure("only keywords are rewritten", got == (source if want is None else want))
+
+
+# ------------------------------------------------------------------------------ conditional blocks of the preparser
+def _if_sequences():
+    I, T, E, N = "if", "text", "else", "end"
+    return {
+        "if-end then if-else-end": [(I, "a"), (T, "A1"), (N,), (I, "b"), (T, "B1"), (E,), (T, "B2"), (N,)],
+        "if-else-end then if-end": [(I, "a"), (T, "A1"), (E,), (T, "A2"), (N,), (I, "b"), (T, "B1"), (N,)],
+        "nested with else inside": [(I, "a"), (T, "A1"), (I, "b"), (T, "B1"), (E,), (T, "B2"), (N,), (T, "A3"), (N,), (T, "Z")],
+        "nested without else, else outside": [(I, "a"), (I, "b"), (T, "B1"), (N,), (E,), (T, "A2"), (N,)],
+        "three in a row": [(I, "a"), (T, "A1"), (N,), (I, "b"), (T, "B1"), (N,), (I, "a"), (T, "A3"), (E,), (T, "A4"), (N,)],
+    }
+
+
+def _expected_if(seq, ctx):
+    """independent reading of a directive sequence: recursive descent"""
+    out, pos = [], 0
+
+    def block(pos, active):
+        while pos < len(seq):
+            kind = seq[pos][0]
+            if kind == "text":
+                if active:
+                    out.append(seq[pos][1])
+                pos += 1
+            elif kind == "if":
+                cond = bool(ctx[seq[pos][1]])
+                pos = block(pos + 1, active and cond)
+                if pos < len(seq) and seq[pos][0] == "else":
+                    pos = block(pos + 1, active and not cond)
+                assert seq[pos][0] == "end"
+                pos += 1
+            else:
+                return pos
+        return pos
+    block(0, True)
+    return "\n".join(out)
+
+
+@contract("C04", targets=["irispie.parsers.preparser:_resolve_sequence", "irispie.parsers.preparser:_If.resolve", "irispie.parsers.preparser:_find_matching_end",
+                          "irispie.parsers.preparser:_find_matching_else", "irispie.parsers.preparser:_cumulate_level", "irispie.parsers.preparser:_Text.resolve"],
+          instances=[(name, a, b) for name in _if_sequences() for a in (False, True) for b in (False, True)], cross=1, opts={"max_paths": 200})
+def conditional_blocks_keep_exactly_the_active_branches(K, name, a, b):
+    """!if c !then ... [!else ...] !end : the text of the branch selected by the condition is kept, the other dropped;
+    an !else belongs to the innermost open !if - in particular an !if without !else is not given the !else of a
+    LATER block; blocks may be nested and may follow each other."""
+    seq = _if_sequences()[name]
+    ctx = {"a": a, "b": b}
+    objs = []
+    for item in seq:
+        if item[0] == "if":
+            objs.append(K.call(PP._If, item[1]))
+        elif item[0] == "text":
+            objs.append(K.call(PP._Text, item[1]))
+        elif item[0] == "else":
+            objs.append(K.call(PP._Else))
+        else:
+            objs.append(K.call(PP._End))
+    code = K.call(PP._resolve_sequence, objs, dict(ctx))
+    K.ensure("exactly the active branches, in order", code == _expected_if(seq, ctx))
